@@ -431,6 +431,25 @@ def handle (w : List String) : Option String :=
         | some ops =>
           let s := ",".intercalate (ops.map showOp)
           toString ops.length ++ " " ++ toString (fnv s.toUTF8)
+  -- opscert <K> <isis or '-'> <ops of the implementation or 'none'> : translation validation of one run of the
+  -- crate's solver, independent of the solver model: is its operation vector a left-inverse certificate
+  -- (`certOk`, theorem cert_sound), and what does the verified oracle say about the system?
+  | ["opscert", k, isis, ops] => some <|
+      match sysParams (nat k) with
+      | none => "err"
+      | some sp =>
+        let isl := if isis == "-" then List.range sp.kp else natList isis
+        match piSolverChecked.fullSystem' sp isl with
+        | none => "err"
+        | some a =>
+          let orc := match oracle.full sp isl (List.replicate (sp.s + sp.h + isl.length) [0]) with
+            | .solved _ => "determined"
+            | .singular => "singular"
+            | .oracleError => "err"
+          if ops == "none" then "gaveup oracle=" ++ orc
+          else match (ops.splitOn ",").mapM Rq.DriverP.parseOp with
+            | none => "err"
+            | some ol => (if certOk a ol then "cert=ok" else "cert=BAD") ++ " oracle=" ++ orc
   | _ => none
 
 end Rq.DriverS
